@@ -20,6 +20,29 @@ Inductive vexpr :=
 | VSub (l : list vexpr)
 | VNeg (e : vexpr).                            (* [^ ... ] *)
 
+(* MayContainStrings (ES2025 22.2.1.6), the static property behind the early error "a negated class may not contain
+   strings": a string disjunction with a string that is not one code point; a union if some operand may; an
+   intersection if all operands may; a subtraction if its first operand may; never a character, a range, a class
+   escape or a negated class *)
+Fixpoint vmcs (e : vexpr) : bool :=
+  match e with
+  | VStrs strs => existsb (fun s => negb (length s =? 1)%nat) strs
+  | VUnion l => (fix go (l : list vexpr) : bool := match l with [] => false | x :: t => vmcs x || go t end) l
+  | VInter l => match l with
+                | [] => false
+                | _ => (fix go (l : list vexpr) : bool := match l with [] => true | x :: t => vmcs x && go t end) l
+                end
+  | VSub l => match l with [] => false | h :: _ => vmcs h end
+  | _ => false
+  end.
+(* the early error itself: no negated class, at any depth, over contents that may contain strings *)
+Fixpoint vnegok (e : vexpr) : bool :=
+  match e with
+  | VNeg e' => negb (vmcs e') && vnegok e'
+  | VUnion l | VInter l | VSub l => (fix go (l : list vexpr) : bool := match l with [] => true | x :: t => vnegok x && go t end) l
+  | _ => true
+  end.
+
 Inductive regex :=
 | REmpty
 | RChar (c : N) (icase : bool)
